@@ -1,6 +1,7 @@
 package aesctrhmac
 
 import (
+	tinkpb "github.com/tink-crypto/tink-go/v2/proto/tink_go_proto"
 	stdhmac "crypto/hmac"
 	"crypto/sha1"
 	"crypto/sha256"
@@ -124,4 +125,27 @@ func VerifH_aesctrhmac_aadbits() {
 func VerifH_c19_aesctrhmac() {
 	a, _ := build(false)
 	verifh.CheckAEADNoWrite(a)
+}
+
+func VerifH_serial_aesctrhmac() {
+	kind := verifrt.Choice("variant", 3)
+	v := [...]Variant{VariantTink, VariantCrunchy, VariantNoPrefix}[kind]
+	pk := kind
+	id := verifrt.Uint32("id")
+	if kind == 2 {
+		id, pk = 0, 3
+	}
+	ht := [...]HashType{SHA1, SHA224, SHA256, SHA384, SHA512}[verifrt.Choice("hash", 5)]
+	ks := [...]int{16, 32}[verifrt.Choice("ks", 2)]
+	mk := 16 + verifrt.Choice("mk", 3)
+	iv := 12 + verifrt.Choice("iv", 5)
+	tag := 10 + verifrt.Choice("tag", 11)
+	params, err := NewParameters(ParametersOpts{AESKeySizeInBytes: ks, HMACKeySizeInBytes: mk, IVSizeInBytes: iv, TagSizeInBytes: tag, HashType: ht, Variant: v})
+	verifrt.Assert(err == nil, "NewParameters")
+	k, err := NewKey(KeyOpts{
+		AESKeyBytes:   secretdata.NewBytesFromData(verifrt.Bytes("aeskey", ks), insecuresecretdataaccess.Token{}),
+		HMACKeyBytes:  secretdata.NewBytesFromData(verifrt.Bytes("mackey", mk), insecuresecretdataaccess.Token{}),
+		IDRequirement: id, Parameters: params})
+	verifrt.Assert(err == nil, "NewKey")
+	verifh.CheckKeyRoundTrip(k, &keySerializer{}, &keyParser{}, &parametersSerializer{}, &parametersParser{}, pk, id, typeURL, tinkpb.KeyData_SYMMETRIC)
 }
